@@ -1,6 +1,7 @@
 import Ufw.Props.C03
 import Ufw.Tie.RegTable
 import Ufw.Tie.RegFns.Geometry
+import Ufw.Tie.RegFns.EndToEnd
 #print axioms Ufw.Props.C03.firstHole_none_iff
 #print axioms Ufw.Props.C03.firstHole_some
 #print axioms Ufw.Props.C03.block_read_spec
@@ -23,3 +24,6 @@ import Ufw.Tie.RegFns.Geometry
 #print axioms Ufw.Tie.RegFns.gen_reg_range_touches
 #print axioms Ufw.Tie.RegFns.overlap_iff_touches_zero
 #print axioms Ufw.Tie.RegFns.gen_ra_range_touches
+#print axioms Ufw.Tie.RegFns.ofNat_address
+#print axioms Ufw.Tie.RegFns.c_taint_selects
+#print axioms Ufw.Tie.RegFns.c_foreach_overlap
